@@ -118,7 +118,7 @@ func genC02(t *rapid.T) statCase {
 	}
 	fams := []string{"explicit", "uniform", "biased", "constant", "alternating", "periodic", "sparse", "markov", "transition", "longrun", "runs", "runs", "markov", "balanced", "bytewords", "bytewords"}
 	if rapid.IntRange(0, 2).Draw(t, "bytealigned") == 0 && n >= 128 {
-		n = n / 8 * 8
+		n = (n + 7) / 8 * 8
 	}
 	c.Seq = gen.DrawSeq(t, n, fams)
 	if test == "runsDist" && rapid.IntRange(0, 2).Draw(t, "pink") == 0 {
